@@ -468,16 +468,16 @@ Proof.
         - intros x Hx. apply Hsame. right. exact Hx.
         - intros x Hx. apply Hdis. unfold c in *. apply in_app_or in Hx as [Hx|Hx]; apply in_or_app; [left; exact Hx|right].
           apply filter_In in Hx as [Hx Hf]. apply filter_In. split; [right; exact Hx|exact Hf]. }
-      unfold not_in at 1 3. rewrite existsb_app. cbn [existsb]. rewrite orb_false_r.
-      destruct (existsb (fun d => rid d =? rid o) done) eqn:Ed; cbn [negb orb].
-      + exact IH'.
+      assert (Enot : not_in (done ++ [r]) o = not_in done o && negb (rid r =? rid o)).
+      { unfold not_in. rewrite existsb_app. cbn [existsb]. rewrite orb_false_r, negb_orb. reflexivity. }
+      rewrite Enot. destruct (not_in done o) eqn:Ed; cbn [andb].
       + cbn [filter]. fold (rid o) (rid r).
         destruct (rid r =? rid o) eqn:Er.
         * apply Z.eqb_eq in Er. replace (rid o =? rid r) with true by (symmetry; lia). cbn [negb andb]. exact IH'.
         * apply Z.eqb_neq in Er. replace (rid o =? rid r) with false by (symmetry; lia). cbn [negb andb].
           rewrite Hdis; [cbn [negb]; f_equal; exact IH'| |congruence].
-          unfold c. apply in_or_app. right. apply filter_In. split; [left; reflexivity|].
-          unfold not_in. rewrite Ed. reflexivity. }
+          unfold c. apply in_or_app. right. apply filter_In. split; [left; reflexivity|exact Ed].
+      + exact IH'. }
   rewrite Hfilter. rewrite rev_app_distr. cbn [rev app]. reflexivity.
 Qed.
 
